@@ -48,6 +48,7 @@ type G struct {
 	named     []*Ty
 	list      *GType
 	listFuncs []*GFunc
+	pkgVars   []lvar // package-level variables read and written by template bodies and by the entry function
 	tinst     map[string]string
 	finst     map[string]string
 	pending   []instReq
@@ -819,6 +820,7 @@ func (fc *fctx) stmt() X {
 			rs = []*Ty{fc.drawType(1)}
 		}
 		name := g.Local("clo")
+		g.Tag("body:closure")
 		fc.cdepth++
 		fc.push()
 		body := fc.block(g.Int(1, 3, "clo-n"))
@@ -845,6 +847,7 @@ func (fc *fctx) stmt() X {
 		if fc.cdepth > 0 && g.Bool("defer-skip") {
 			return fc.record()
 		}
+		g.Tag("body:defer")
 		return cat("defer func() {\n\t", fc.record(), "}()\n")
 	case 14:
 		// type switch / assertion with the static type of the boxed value and composites of it
@@ -853,6 +856,7 @@ func (fc *fctx) stmt() X {
 			return fc.record()
 		}
 		v := fc.pickVar(vs, "ts-var")
+		g.Tag("body:type-switch-or-assertion")
 		if g.Bool("ts-assert") {
 			a, ok := g.Local("as"), g.Local("ok")
 			x := cat(a, ", ", ok, " := interface{}(", v.name, ").(", v.t, ")\n_ = ", a, "\n_ = ", ok, "\n")
@@ -870,6 +874,7 @@ func (fc *fctx) stmt() X {
 	case 15:
 		// local type built from the parameters
 		name := g.Local("loc")
+		g.Tag("body:local-type")
 		ft := fc.drawType(1)
 		st := structOf([]string{"X", "N"}, []*Ty{ft, tInt})
 		lt := &Ty{k: 'n', name: name, under: st}
@@ -963,6 +968,9 @@ func (fc *fctx) callGeneric() X {
 		return fc.record()
 	}
 	gf := g.gfuncs[g.Pick(fc.maxFn, "call-which")]
+	if len(fc.tps) > 0 {
+		g.Tag("site:inside-another-instance")
+	}
 	args := make([]*Ty, len(gf.params))
 	for i := range args {
 		args[i] = fc.typeOfClass(gf.class[i], 2)
@@ -995,6 +1003,7 @@ func (fc *fctx) callInstance(gf *GFunc, args []*Ty) X {
 	var pre X = lit("")
 	if g.Chance(1, 5, "call-via-value") {
 		fv := g.Local("fv")
+		g.Tag("site:through-function-value")
 		pre = cat(fv, " := ", callee, "\n")
 		callee = lit(fv)
 	}
@@ -1145,7 +1154,7 @@ func (g *G) genFunc() *GFunc {
 	if g.Chance(1, 2, "gf-np1") {
 		np = 1
 	}
-	fc := &fctx{g: g, scopes: [][]lvar{nil}, budget: g.Int(3, 12, "gf-budget"), maxFn: len(g.gfuncs)}
+	fc := &fctx{g: g, scopes: [][]lvar{g.pkgVars, nil}, budget: g.Int(3, 12, "gf-budget"), maxFn: len(g.gfuncs)}
 	for i := 0; i < np; i++ {
 		c := g.drawClass()
 		gf.params = append(gf.params, paramNames[i])
@@ -1174,7 +1183,7 @@ func (g *G) genFunc() *GFunc {
 		last := len(gf.formals) - 1
 		el := gf.formals[last]
 		gf.formals[last] = sliceOf(el)
-		fc.scopes[0][last].t = gf.formals[last]
+		fc.scopes[1][last].t = gf.formals[last]
 	}
 	nr := g.Int(0, 2, "gf-nresults")
 	if g.Chance(1, 2, "gf-one-result") {
@@ -1289,6 +1298,21 @@ func Generate(t *rapid.T, px string) gobatch.Program {
 		g.named = append(g.named, nt)
 		plain = append(plain, cat("type ", nt.name, " ", u))
 	}
+	// package-level variables: template bodies use them, so an instance must run in the
+	// environment of the scope the template was declared in
+	for i, n := 0, g.Int(1, 2, "n-pkgvars"); i < n; i++ {
+		name := g.Top("W")
+		var t *Ty
+		var init string
+		if i == 0 {
+			t, init = tInt, fmt.Sprint(g.Int(1, 50, "pkgvar-int"))
+		} else {
+			t, init = sliceOf(tString), `[]string{"g"}`
+		}
+		g.pkgVars = append(g.pkgVars, lvar{name, t, false})
+		plain = append(plain, cat("var ", name, " ", t, " = ", init))
+	}
+	nPrefix := len(plain)
 	for i, n := 0, g.Int(0, 3, "n-gtypes"); i < n; i++ {
 		g.gtypes = append(g.gtypes, g.genType())
 	}
@@ -1321,7 +1345,7 @@ func Generate(t *rapid.T, px string) gobatch.Program {
 	}
 	// the entry function: instantiation sites at several closure depths
 	entry := g.Top("Entry")
-	fc := &fctx{g: g, scopes: [][]lvar{globals, nil}, budget: g.Int(6, 22, "entry-budget"), maxFn: len(g.gfuncs)}
+	fc := &fctx{g: g, scopes: [][]lvar{append(append([]lvar{}, g.pkgVars...), globals...), nil}, budget: g.Int(6, 22, "entry-budget"), maxFn: len(g.gfuncs)}
 	var parts []interface{}
 	for fc.budget > 0 {
 		parts = append(parts, fc.siteStmt())
@@ -1349,7 +1373,7 @@ func Generate(t *rapid.T, px string) gobatch.Program {
 	p := gobatch.Program{Entry: entry, Meta: map[string]string{}}
 	gs := &side{g: g}
 	// generic side: plain named types, generic declarations, then variables and functions
-	nNamed := len(g.named)
+	nNamed := nPrefix
 	for _, x := range plain[:nNamed] {
 		p.Decls = append(p.Decls, x(gs))
 	}
@@ -1426,12 +1450,12 @@ const sepDecl = "\n//--\n"
 // closure depths.
 func (fc *fctx) siteStmt() X {
 	g := fc.g
-	switch g.Pick(10, "site") {
+	switch g.Pick(11, "site") {
 	case 0, 1, 2, 3, 4:
 		fc.budget--
 		g.Tag(fmt.Sprintf("site:closure-depth-%d", fc.cdepth))
 		return fc.callGeneric()
-	case 5:
+	case 5, 10:
 		if fc.cdepth >= 4 {
 			return fc.stmt()
 		}
